@@ -87,6 +87,10 @@ func buildRuns(cases []*caseT, combos []combo) []runSpec {
 						if o.Cons == "half" && !c.Starts[si].Half.Has {
 							continue
 						}
+						if rt.name == "saga" && c.D == 0 && o.HookStop > 0 {
+							// without a regulariser saga's hook panics (nil proximal operator): one hook setting is enough
+							continue
+						}
 						key := fmt.Sprintf("%s|%s|c%d|s%d|e%d|m%d|h%d|%s", rt.name, v, c.index, si, o.EpsExp, o.Maxit, o.HookStop, o.Cons)
 						runs = append(runs, runSpec{key: key, rt: rt, variant: v, ci: c.index, si: si, o: o})
 					}
